@@ -416,6 +416,40 @@ def make_valid_case(rng, size, nrend):
     raise RuntimeError("generator stuck")
 
 
+def make_inconsistent_case(rng, size, nrend):
+    """a well-formed AST with one '?' flipped (or one qualifier changed to the opposite
+    output) so that the reference rejects it: every rendering must be rejected"""
+    import copy
+    for _ in range(200):
+        ast = gen_ast(rng, size)
+        if not small_enough(ast) or eoc_unsafe(ast):
+            continue
+        try:
+            reference(ast)
+        except RefError:
+            continue
+        a2 = copy.deepcopy(ast)
+        nodes = [n for ch in a2 for n in G.expr_nodes(ch["head"])]
+        nodes += [r["node"] for ch in a2 for g in ch["groups"] for r in g if not r["s"]]
+        n = rng.choice(nodes)
+        k = rng.random()
+        if k < 0.6:
+            n["opt"] = not n["opt"]
+        elif k < 0.8:
+            n["q"] = rng.choice(["fail", "failed"])
+            n["opt"] = False
+        else:
+            n["q"] = rng.choice(["expire", "submit-fail", "finish"])
+            n["opt"] = n["q"] == "finish"
+        if eoc_unsafe(a2):
+            continue
+        try:
+            reference(a2)
+        except RefError:
+            return {"kind": "inconsistent", "ast": a2, "rend": renderings(a2, rng, nrend)}
+    raise RuntimeError("generator stuck")
+
+
 # ---- malformed renderings: one mutation of a well-formed line list
 def mutate(rng, ast):
     lines = cut_lines(ast, rng, "chains")
@@ -543,6 +577,21 @@ def corpus_cases():
     return out
 
 
+def coq_expr(e):
+    if e[0] == "N":
+        return "(LN %s)" % G.coq_node(e[1])
+    if e[0] == "()":
+        return "(LPar %s)" % coq_expr(e[1])
+    return "(%s %s %s)" % ("LAnd" if e[0] == "&" else "LOr", coq_expr(e[1]), coq_expr(e[2]))
+
+
+def coq_graph(ast):
+    return q.clist("(mkChain %s %s)" % (
+        coq_expr(ch["head"]),
+        q.clist(q.clist("(mkR %s %s)" % (q.cbool(r["s"]), G.coq_node(r["node"])) for r in g) for g in ch["groups"]))
+        for ch in ast)
+
+
 # ------------------------------------------------------------------ the stream
 def same_result(a, b):
     return all(a.get(k) == b.get(k) for k in ("tasks", "trigs", "opt"))
@@ -550,9 +599,9 @@ def same_result(a, b):
 
 class GraphStream(Stream):
     name = "graph"
-    coq_import = "From Cylc Require Import Model.GraphBase Model.GraphParse."
-    check_fn = "GraphParse.check_case"
-    show_fn = "GraphParse.model_out"
+    coq_import = "From Cylc Require Import Model.GraphBase Model.GraphExpr Model.GraphParse Model.GraphAst."
+    check_fn = "GraphAst.check_acase"
+    show_fn = "GraphAst.acase_model"
     rule = ("generated graph ASTs (chains with &,|,() head expressions, &-groups, qualifiers/aliases/custom outputs, ?, "
             "suicide, left offsets; optionality consistent per task profile) each rendered in 8 styles (chains vs pairs vs "
             "random cuts, line order, duplicated lines, no/heavy whitespace, comments, blank lines, continuation breaks "
@@ -560,16 +609,18 @@ class GraphStream(Stream):
             "operator, OR on the right, suicide on the left, unbalanced parentheses, empty node, name<blank>name); "
             "non-trivial = AST with at least one arrow")
     n_hashseeds = 4
-    shard_size = 60
+    shard_size = 12
 
     def corpus(self):
         return corpus_cases()
 
     def gen(self, rng, tier):
-        n_valid, n_mal = (70, 40) if tier == "quick" else (2500, 1200)
+        n_valid, n_mal = (48, 30) if tier == "quick" else (2500, 1200)
         cases = []
         for i in range(n_valid):
             cases.append(make_valid_case(rng, rng.choice([0, 1, 1, 2]), 8))
+        for i in range(n_valid // 4):
+            cases.append(make_inconsistent_case(rng, rng.choice([0, 1]), 6))
         for i in range(n_mal):
             cases.append(make_malformed_case(rng, rng.choice([0, 1]), 6))
         return cases
@@ -605,7 +656,12 @@ class GraphStream(Stream):
             items.append(q.cpair(G.coq_toks(rd["toks"]), G.coq_outcome(res)))
         if not items:
             return None
-        return q.clist(items)
+        ast = "None"
+        if c["kind"] in ("valid", "inconsistent", "eoc-unsafe"):
+            # valid: the Coq-side wf_graph/eoc_safe must hold and every rendering must mean the AST;
+            # inconsistent / eoc-unsafe: the Coq-side predicates must reject the AST
+            ast = "(Some (%s, %s))" % (coq_graph(c["ast"]), q.cbool(c["kind"] == "valid"))
+        return "(mkAcase %s %s)" % (ast, q.clist(items))
 
     # ---- oracle
     def oracle(self, c, r):
